@@ -198,6 +198,26 @@ def address_probe(chk: Check, repo: Repo) -> None:
     chk.ob("peer-heard-is-recorded", pc.site(), ok, "P2PConnection.process sets peer_seen on every path (acknowledgements, data, disconnects)" if ok else "P2PConnection.process does not record on every path that the peer was heard", key="probe|mark")
 
 
+def broadcast_requests_inside_the_context(chk: Check, repo: Repo) -> None:
+    """A broadcast request whose answers are counted is sent while the collecting context is already registered
+    (`async with management.broadcast() as ctx: send_broadcast(..); ctx.receive(..)`): an answer that arrives while the
+    send still awaits its confirmation would otherwise be dropped - with two devices in programming mode only one is
+    counted and the address is written to both."""
+    n = 0
+    for f in repo.all_functions():
+        if not f.module.name.startswith("xknx.management.procedures"):
+            continue
+        cfg = None
+        for w in [x for x in walk_local(f.node) if isinstance(x, ast.AsyncWith) and any(call_name(c).endswith("management.broadcast") for it in x.items for c in calls(it.context_expr))]:
+            inner = {id(y) for b_ in w.body for y in ast.walk(b_)}
+            sends = [c for c in calls(f.node) if call_name(c).endswith("management.send_broadcast")]
+            for c in sends:
+                n += 1
+                ok = id(c) in inner
+                chk.ob("broadcast-request-is-sent-inside-the-collecting-context", f.site(c), ok, f"{f.qualname}: `{ast.unparse(c)[:70]}` " + ("is sent with the broadcast context registered" if ok else "is sent before the broadcast context is registered: answers arriving while the send is confirmed are lost (a second device in programming mode goes uncounted)"), key=f"bc-order|{f.qualname}|{ast.unparse(c)[:50]}")
+    chk.floor("broadcast requests with collected answers", n, 2)
+
+
 def _is_bc_receive(c: ast.Call, env, am) -> bool:
     """`<the broadcast context>.receive(...)`, whatever the `async with ... as <name>` target is called"""
     if not (isinstance(c.func, ast.Attribute) and c.func.attr == "receive"):
@@ -390,6 +410,7 @@ def run(chk: Check, repo: Repo) -> None:
     address_write(chk, repo)
     address_check(chk, repo)
     address_probe(chk, repo)
+    broadcast_requests_inside_the_context(chk, repo)
     address_read(chk, repo)
     serial(chk, repo)
     authorize(chk, repo)
